@@ -182,6 +182,10 @@ func (m *USB) DecodeFromBytes(data []byte, df gopacket.DecodeFeedback) error {
 	if m.Setup {
 		m.Payload = data[40:]
 	} else if m.Data {
+		if uint64(m.UrbDataLength) > uint64(len(data)-40) {
+			df.SetTruncated()
+			return errors.New("USB data length exceeds packet size")
+		}
 		m.Payload = data[uint32(len(data))-m.UrbDataLength:]
 	}
 
